@@ -172,13 +172,14 @@ def attachedLine : Attached → Option Nat
 /-- **`execL` is what the real tables answer.**  One generator, any script of location calls: for every
     instruction `pc` the line that `process_err` attaches (through `get_span` / `get_line` of the
     run-length tables, binary search included) is the line `execL` computes. -/
-theorem tables_answer_execL (evs : List Ev) (hf : evs.all flat = true) (hlen : evs.length < 4294967296)
-    (pc : Nat) (e : Em) (he : (execL LS.init evs).2[pc]? = some e) :
-    ∃ att, processErr (execG GS.init evs).cur.cg.instrs pc = .ok att ∧ (e.line = none ∨ attachedLine att = e.line) := by
-  obtain ⟨A', hr, hlenA, hline⟩ := exec_rel evs LS.init GS.init [] hf rel_init
+theorem tables_answer_execL_from (s0 : LS) (g0 : GS) (h0 : Rel s0 g0 [])
+    (evs : List Ev) (hf : evs.all flat = true) (hlen : evs.length < 4294967296)
+    (pc : Nat) (e : Em) (he : (execL s0 evs).2[pc]? = some e) :
+    ∃ att, processErr (execG g0 evs).cur.cg.instrs pc = .ok att ∧ (e.line = none ∨ attachedLine att = e.line) := by
+  obtain ⟨A', hr, hlenA, hline⟩ := exec_rel evs s0 g0 [] hf h0
   simp only [List.nil_append, List.length_nil, Nat.zero_add] at hr hline
-  have hpc : pc < (execL LS.init evs).2.length := by
-    rcases Nat.lt_or_ge pc (execL LS.init evs).2.length with h | h
+  have hpc : pc < (execL s0 evs).2.length := by
+    rcases Nat.lt_or_ge pc (execL s0 evs).2.length with h | h
     · exact h
     · rw [List.getElem?_eq_none h] at he; cases he
   have hel : e.line = lineSpec A' pc := by
@@ -187,7 +188,7 @@ theorem tables_answer_execL (evs : List Ev) (hf : evs.all flat = true) (hlen : e
     cases he
     exact this
   have hA : A'.length < 4294967296 := by
-    have h1 : (execL LS.init evs).2.length ≤ evs.length := by
+    have h1 : (execL s0 evs).2.length ≤ evs.length := by
       have : ∀ (es : List Ev) (s : LS), (execL s es).2.length ≤ es.length := by
         intro es
         induction es with
@@ -210,5 +211,17 @@ theorem tables_answer_execL (evs : List Ev) (hf : evs.all flat = true) (hlen : e
     cases hl : lineSpec A' pc with
     | some l => exact ⟨.line l, rfl, Or.inr (by rw [hel, hl]; rfl)⟩
     | none => exact ⟨.nothing, rfl, Or.inl (by rw [hel, hl])⟩
+
+/-- the root generator -/
+theorem tables_answer_execL (evs : List Ev) (hf : evs.all flat = true) (hlen : evs.length < 4294967296)
+    (pc : Nat) (e : Em) (he : (execL LS.init evs).2[pc]? = some e) :
+    ∃ att, processErr (execG GS.init evs).cur.cg.instrs pc = .ok att ∧ (e.line = none ∨ attachedLine att = e.line) :=
+  tables_answer_execL_from LS.init GS.init rel_init evs hf hlen pc e he
+
+/-- a sub-generator as `new_subgenerator` creates it for the body of a `{% block %}`: the current line and the
+    innermost span carried over, no instruction yet, whatever generators are suspended below it -/
+theorem rel_sub (line : Nat) (stack : List Span) (saved : List (Option Nat)) (susp : List (Gen × String))
+    (done : List (String × Gen)) :
+    Rel ⟨line, none, saved⟩ ⟨⟨⟨line, stack, Instrs.empty⟩, []⟩, susp, done⟩ [] := ⟨rfl, rfl, rfl⟩
 
 end MJ.LocAst
